@@ -10,57 +10,74 @@ set_option linter.unusedSimpArgs false
 
 @[gotie_p] theorem pagesDiffer_eq (a b : U16) : Gen.CpuGo.Primary.pagesDiffer a b = Cpu.pagesDiffer a b := rfl
 
+/-! ### emulator/bus: `Bus.EaRead`, `Bus.EaWrite`, `Bus.EaRead24_wrap` as translated are the model's bus primitives -/
+
+@[gotie_p] theorem Bus_EaRead_eq (a : Nat) : Gen.CpuGo.Primary.Bus_EaRead a = Cpu.eaRead a := by
+  funext s
+  gosym [Gen.CpuGo.Primary.Bus_EaRead]
+
+@[gotie_p] theorem Bus_EaWrite_eq (a : Nat) (v : U8) : Gen.CpuGo.Primary.Bus_EaWrite a v = Cpu.eaWrite a v := by
+  funext s
+  gosym [Gen.CpuGo.Primary.Bus_EaWrite]
+
+@[gotie_p] theorem Bus_EaRead24_wrap_eq (b : U8) (a : U16) : Gen.CpuGo.Primary.Bus_EaRead24_wrap b a = Cpu.nRead24_wrap b a := by
+  funext s
+  gosym [Gen.CpuGo.Primary.Bus_EaRead24_wrap, Cpu.nRead24_wrap, le24_go]
+
 @[gotie_p] theorem nRead_eq (b : U8) (a : U16) : Gen.CpuGo.Primary.nRead b a = Cpu.nRead b a := by
   funext s
-  gosym [Gen.CpuGo.Primary.nRead]
+  simp only [Gen.CpuGo.Primary.nRead, Bus_EaRead_eq]
+  gosym []
 
 @[gotie_p] theorem nWrite_eq (b : U8) (a : U16) (v : U8) : Gen.CpuGo.Primary.nWrite b a v = Cpu.nWrite b a v := by
   funext s
-  gosym [Gen.CpuGo.Primary.nWrite]
+  simp only [Gen.CpuGo.Primary.nWrite, Bus_EaWrite_eq]
+  gosym []
 
 @[gotie_p] theorem nRead16_wrap_eq (b : U8) (a : U16) : Gen.CpuGo.Primary.nRead16_wrap b a = Cpu.nRead16_wrap b a := by
   funext s
-  gosym [Gen.CpuGo.Primary.nRead16_wrap, Cpu.nRead16_wrap]
+  simp only [Gen.CpuGo.Primary.nRead16_wrap, Bus_EaRead_eq]
+  gosym [Cpu.nRead16_wrap]
 
 @[gotie_p] theorem nRead16_cross_eq (b : U8) (a : U16) : Gen.CpuGo.Primary.nRead16_cross b a = Cpu.nRead16_cross b a := by
   funext s
-  gosym [Gen.CpuGo.Primary.nRead16_cross, Cpu.nRead16_cross, and_mask24, lin_succ_mod]
-
+  simp only [Gen.CpuGo.Primary.nRead16_cross, Bus_EaRead_eq]
+  gosym [Cpu.nRead16_cross, and_mask24, lin_succ_mod]
 
 @[gotie_p] theorem nRead24_wrap_eq (b : U8) (a : U16) : Gen.CpuGo.Primary.nRead24_wrap b a = Cpu.nRead24_wrap b a := by
-  funext s
-  rfl
+  simp only [Gen.CpuGo.Primary.nRead24_wrap, Bus_EaRead24_wrap_eq, bind_pure']
 
 @[gotie_p] theorem nWrite16_wrap_eq (b : U8) (a : U16) (v : U16) : Gen.CpuGo.Primary.nWrite16_wrap b a v = Cpu.nWrite16_wrap b a v := by
   funext s
-  gosym [Gen.CpuGo.Primary.nWrite16_wrap, Cpu.nWrite16_wrap, lo8_shr8]
+  simp only [Gen.CpuGo.Primary.nWrite16_wrap, Bus_EaWrite_eq]
+  gosym [Cpu.nWrite16_wrap, lo8_shr8]
 
 @[gotie_p] theorem nWrite16_cross_eq (b : U8) (a : U16) (v : U16) : Gen.CpuGo.Primary.nWrite16_cross b a v = Cpu.nWrite16_cross b a v := by
   funext s
-  gosym [Gen.CpuGo.Primary.nWrite16_cross, Cpu.nWrite16_cross, lo8_shr8, and_mask24, lin_succ_mod]
+  simp only [Gen.CpuGo.Primary.nWrite16_cross, Bus_EaWrite_eq]
+  gosym [Cpu.nWrite16_cross, lo8_shr8, and_mask24, lin_succ_mod]
 
 theorem succ_mod24 (x : Nat) : ((x + 1) % 4294967296) % 16777216 = (x + 1) % 16777216 := by omega
 
 @[gotie_p] theorem cmdRead_eq : Gen.CpuGo.Primary.cmdRead = Cpu.cmdRead := by
   funext s
-  simp only [Gen.CpuGo.Primary.cmdRead, Cpu.cmdRead, nRead_eq, get_bind]
+  simp only [Gen.CpuGo.Primary.cmdRead, Cpu.cmdRead, nRead_eq, Bus_EaRead_eq, get_bind]
   cases s.r.Mode <;> gosym []
 
 @[gotie_p] theorem cmdRead16_eq : Gen.CpuGo.Primary.cmdRead16 = Cpu.cmdRead16 := by
   funext s
-  simp only [Gen.CpuGo.Primary.cmdRead16, Cpu.cmdRead16, nRead16_wrap_eq, nRead16_cross_eq, get_bind]
+  simp only [Gen.CpuGo.Primary.cmdRead16, Cpu.cmdRead16, nRead16_wrap_eq, nRead16_cross_eq, Bus_EaRead_eq, get_bind]
   cases s.r.Mode <;> gosym [Cpu.nRead16_wrap, Cpu.nRead16_cross, rdEA16, eaRead16, and_mask24, succ_mod24]
 
 @[gotie_p] theorem cmdWrite_eq (v : U8) : Gen.CpuGo.Primary.cmdWrite v = Cpu.cmdWrite v := by
   funext s
-  simp only [Gen.CpuGo.Primary.cmdWrite, Cpu.cmdWrite, nWrite_eq, get_bind]
+  simp only [Gen.CpuGo.Primary.cmdWrite, Cpu.cmdWrite, nWrite_eq, Bus_EaWrite_eq, get_bind]
   cases s.r.Mode <;> gosym []
 
 @[gotie_p] theorem cmdWrite16_eq (v : U16) : Gen.CpuGo.Primary.cmdWrite16 v = Cpu.cmdWrite16 v := by
   funext s
-  simp only [Gen.CpuGo.Primary.cmdWrite16, Cpu.cmdWrite16, nWrite16_wrap_eq, nWrite16_cross_eq, get_bind]
+  simp only [Gen.CpuGo.Primary.cmdWrite16, Cpu.cmdWrite16, nWrite16_wrap_eq, nWrite16_cross_eq, Bus_EaWrite_eq, get_bind]
   cases s.r.Mode <;> gosym [Cpu.nWrite16_wrap, Cpu.nWrite16_cross, wrEA16, eaWrite16, and_mask24, succ_mod24, lo8_shr8]
-
 
 /-! ### stack -/
 
